@@ -214,6 +214,31 @@ def run(ctx):
         else:
             r.violation("serde_lexpr::" + f.path, "variant-payload", "VariantAccess::%s no longer takes the variant payload "
                                                                   "from the cdr%s" % (m, "" if want == "cdr" else " via " + want), f.loc())
+    other = ss.other_deserializers(serde, lexpr)
+    ro = ctx.rule("R-ONE-ACCEPT-MAP", "every type of the crate that implements serde::Deserializer answers each (method, "
+                                      "value kind) pair like the value deserializer whose accept map is checked")
+    if not other:
+        ro.ok("value/de.rs has a single serde::Deserializer implementation")
+    for ty, maps in sorted(other.items()):
+        if maps is None:
+            ro.violation("serde_lexpr::" + ty, "deserializer-unknown", "%s implements serde::Deserializer but its layout is not known" % ty)
+            continue
+        diffs = []
+        for m, res in sorted(maps.items()):
+            main = acc.get(m)
+            if main is None:
+                continue
+            for lab, outc in sorted(res.items()):
+                if outc != main.get(lab) and not (outc == "other" or "inexact" in outc or outc.startswith("?")):
+                    diffs.append((m, lab, outc, main.get(lab)))
+        if diffs:
+            m, lab, outc, want = diffs[0]
+            ro.violation("serde_lexpr::" + ty, "accept-map-differs",
+                         "%s answers %d (method, value kind) pairs differently from the value deserializer, e.g. %s on a %s "
+                         "value: %s instead of %s - what the serializer produced for that position is no longer read back "
+                         "the same way" % (ty, len(diffs), m, lab, outc, want))
+        else:
+            ro.ok("%s: %d methods answer like the value deserializer" % (ty, len(maps)))
     borrow_and_newtype(ctx, serde, lexpr, acc)
     ra = ctx.rule("R-ARITY", "every collector method records exactly one element / entry on each successful path "
                             "(a field or element that is skipped cannot be deserialized again)")
